@@ -9,6 +9,7 @@ import (
 	"encoding/json"
 	"fmt"
 	"io"
+	"reflect"
 	"sort"
 	"strings"
 
@@ -22,6 +23,17 @@ type c04Params struct {
 }
 
 type c04Pair struct{ b, c byte }
+
+// c04Escape calls the product's escapeData through reflection so that the check still builds (and
+// still judges the behaviour) when a change adds trailing parameters to it (a scratch buffer, say).
+func c04Escape(data []byte, table *escapeTable) []byte {
+	f := reflect.ValueOf(escapeData)
+	args := []reflect.Value{reflect.ValueOf(data), reflect.ValueOf(table)}
+	for f.Type().NumIn() > len(args) {
+		args = append(args, reflect.Zero(f.Type().In(len(args))))
+	}
+	return f.Call(args)[0].Bytes()
+}
 
 func latin1(b byte) string { return string(rune(b)) }
 
@@ -117,7 +129,7 @@ func c04CheckTable(r *vs.JobResult, name string, table *escapeTable, pairs []c04
 	}
 	for xi, x := range payloads {
 		r.Execs++
-		enc := escapeData(x, table)
+		enc := c04Escape(x, table)
 		if xi == len(payloads)-1 && len(r.Samples) < 3 {
 			r.Samples = append(r.Samples, fmt.Sprintf("table %s payload %q -> escaped %q (streaming=%v: every split point x output buffer size)", clipStr(name, 80), x, enc, streaming))
 		}
@@ -227,8 +239,8 @@ func c04Run(j vs.Job) *vs.JobResult {
 					w.Write(x[:cut])
 					w.Write(x[cut:])
 					r.Execs++
-					if !bytes.Equal(sink.Bytes(), escapeData(x, t)) {
-						r.Violate("c04:writer", fmt.Sprintf("escapeWriter(%q cut at %d) wrote %q, escapeData gives %q", x, cut, sink.Bytes(), escapeData(x, t)), nil)
+					if !bytes.Equal(sink.Bytes(), c04Escape(x, t)) {
+						r.Violate("c04:writer", fmt.Sprintf("escapeWriter(%q cut at %d) wrote %q, escapeData gives %q", x, cut, sink.Bytes(), c04Escape(x, t)), nil)
 						if len(r.Violations) > 5 {
 							return r
 						}
@@ -298,7 +310,7 @@ func c04Run(j vs.Job) *vs.JobResult {
 				r.Outcomes["accepted-non-injective"]++
 				for _, x := range payloads {
 					r.Execs++
-					enc := escapeData(x, &t)
+					enc := c04Escape(x, &t)
 					dec, rem, err := unescapeData(enc, &t, nil)
 					_ = dec
 					_ = rem
@@ -371,6 +383,18 @@ func c04Run(j vs.Job) *vs.JobResult {
 			}
 		}
 	case "world":
+		// a binary upload whose buffer size adapts downwards (one ack arrives 2.3 s late, each ack in turn): blocks queued at
+		// the old size are sent in pieces; the payload must still arrive unchanged
+		for k := 1; k <= 60; k++ {
+			wp := wParams{Dir: "up", Binary: true, EscapeAll: true, Tree: "one:R:200000", Compress: 2, Bufsize: 16384, MsgFaults: []wMsgFault{{"s2c", k, "slow:2300"}}}
+			w, res := runWorld(wp, vs.Config{}, nil, nil, nil)
+			r.Execs++
+			r.Nontrivial++
+			if v := c01Oracle(w, res, true); v != "" {
+				r.Violate("c04:world-late-ack:"+firstWords(v, 8), wp.String()+": "+v, nil)
+				break
+			}
+		}
 		// wire monitor: nothing the uploading client writes after its ACT contains a protected byte
 		for _, esc := range []bool{false, true} {
 			for _, tree := range []string{"one:E:3079", "small3", "one:R:21000", "one:U:300", "one:U:3000"} {
@@ -428,7 +452,7 @@ func init() {
 		ID:    "C04",
 		Level: "exploration",
 		Rule: "both built-in tables (as the client decodes them from JSON) and every announced table made of the two mandatory entries (leader and '~', with the built-in codes, with the leader escaped as (ee,'0'), and with (ee,ee) standing for '~') plus <= 2 extra entries over bytes {00,0d,18,'1','A',7e,ee,ff} x codes {'1','A','B',ee,00}; payloads: all 256 single bytes and every string of length <= 4 (built-in) / <= 3 over {ee,'~','1','A',0d,18,'x'}; " +
-			"for built-in and single-extra tables every split point of the escaped stream x every output buffer size through the real escapeReader; every undefined (leader, code) pair; the zstd+escape reader stack over 6 buffer sizes and ~48 split points; binary uploads in the world with a wire monitor",
+			"for built-in and single-extra tables every split point of the escaped stream x every output buffer size through the real escapeReader; every undefined (leader, code) pair; the zstd+escape reader stack over 6 buffer sizes and ~48 split points; binary uploads in the world with a wire monitor; a binary upload with each ack in turn 2.3 s late (the buffer size adapts downwards and queued blocks are split)",
 		Assumptions: []string{"tables that escapeCharsToTable accepts although they are not injective, or whose codes are themselves protected bytes, are only checked for 'no panic'"},
 		QuickBudget: 100, ThoroughBudget: 600, DiedIsViolation: true,
 		Jobs: func(tier string) []vs.Job {
